@@ -1,13 +1,588 @@
-//! C20 — stub (not built yet; not registered in MANIFEST.json).
-use super::*;
+//! C20 — CSV export is a faithful rectangular rendering of the active sheet.
+//!
+//! Oracle (statement, sentence by sentence):
+//!  * "one record per row 1..highest used row, one field per column 1..highest used column
+//!    of the active sheet, each field carrying the cell's value text (empty for missing
+//!    cells), trimmed or wrapped as the options say, in the encoding the options select":
+//!    bytes -> `model::csv::decode(selected encoding)` -> `model::csv::parse(',', wrap char)`
+//!    -> grid compared with the grid computed from the case (not from the library).
+//!  * "a standard CSV parser configured with the same delimiter and quote character recovers
+//!    exactly that grid, also when values contain commas, quote characters or line breaks":
+//!    the reference parser is the lenient standard parser (Python `csv` semantics).
+//!
+//! Domain restriction (notes/C20.md): without a wrap character there is no quote character,
+//! so a value that contains the delimiter or a line break is not representable in any CSV
+//! text a parser "configured with the same ... quote character" (none) could read back.  No
+//! writer can satisfy the sentence there, so such cases are not judged by grid equality;
+//! they form the stratum `unrepresentable`, where only "no panic, decodable in the selected
+//! encoding, the value texts appear in order" is asserted.
+use super::Prop;
+use crate::engine::*;
+use crate::model::csv as mcsv;
+use proptest::prelude::*;
+use serde::{Deserialize, Serialize};
+use serde_json::json;
+use std::collections::BTreeMap;
+use std::sync::atomic::{AtomicU64, Ordering};
+use umya_spreadsheet::structs::{CsvEncodeValues, CsvWriterOption};
 
 pub fn prop() -> Prop {
     Prop {
         id: "C20",
-        describe: |_| {},
-        subs: no_subs,
-        extra: no_extra,
-        replay_extra: no_replay_extra,
-        watchdog_s: (900, 7200),
+        describe,
+        subs,
+        extra,
+        replay_extra: super::no_replay_extra,
+        watchdog_s: (900, 14400),
     }
+}
+
+fn describe(ctx: &Ctx) {
+    ctx.rule("grid: 1..3 sheets with a generated active tab, each a sparse set of cells (text / number / boolean) in columns 1..8 (sometimes up to 30) and rows 1..10 (sometimes up to 60); text from printable ASCII, the delimiter, both quote characters, CR / LF / CRLF, edge blanks and, per encoding, non-ASCII characters the encoding represents unambiguously; options: 10 encodings x trim on/off x wrap none / \" / '; written with write_writer into memory (1 in 8 through write() to a file). Non-trivial = the grid has a gap (missing cell inside the rectangle) and a value that needs quoting (delimiter, quote character, line break, edge blank) or is non-ASCII; distinct by the whole case");
+    ctx.rule("enumerated: one fixed sheet (gap, every value feature, the whole non-ASCII alphabet of the encoding in one cell, number, boolean, second sheet inactive) under every one of the 10 x 2 x 3 option combinations (values with delimiter / line break left out when there is no wrap character), plus the same with such values for wrap = none (stratum unrepresentable)");
+    ctx.assume("value text of a number cell = any text that parses (str::parse::<f64>) to the same f64 bits; of a boolean = TRUE / FALSE (case-insensitive); of a text cell = the text");
+    ctx.assume("'trimmed' = leading/trailing white space removed; both the Unicode reading (str::trim) and the ASCII reading (space, tab, CR, LF, VT, FF) are accepted per field");
+    ctx.assume("a leading byte order mark is accepted and ignored; an empty line is a record with one empty field (RFC 4180 grammar)");
+    ctx.assume("wrap = none and a field that contains ',' CR or LF is outside the domain of the grid-recovery clause (no quote character exists that a parser could be configured with): stratum `unrepresentable`, weak oracle only");
+    ctx.assume("cells with an empty value are not generated (whether such a cell counts as 'used' is not fixed by the statement); characters the selected legacy encoding cannot represent are not generated");
+}
+
+// ---------------------------------------------------------------------------------------
+// case
+
+#[derive(Debug, Clone, Serialize, Deserialize, PartialEq)]
+pub enum Val {
+    Str(String),
+    /// decimal text of a finite number
+    Num(String),
+    Bool(bool),
+}
+
+#[derive(Debug, Clone, Serialize, Deserialize)]
+pub struct CellSpec {
+    pub col: u16,
+    pub row: u16,
+    pub val: Val,
+}
+
+#[derive(Debug, Clone, Serialize, Deserialize)]
+pub struct CsvCase {
+    /// cells per sheet, applied in order (a later cell at the same position replaces the earlier one)
+    pub sheets: Vec<Vec<CellSpec>>,
+    /// index of the active sheet (clamped to the sheet count)
+    pub active: u8,
+    /// index into model::csv::ENCODINGS
+    pub enc: u8,
+    pub trim: bool,
+    /// 0 = none, 1 = ", 2 = '
+    pub wrap: u8,
+    /// write through writer::csv::write to a file instead of write_writer to memory
+    pub via_path: bool,
+}
+
+fn wrap_char(w: u8) -> Option<char> {
+    match w {
+        1 => Some('"'),
+        2 => Some('\''),
+        _ => None,
+    }
+}
+
+fn text_value(enc: &'static str, breaking: bool) -> BoxedStrategy<String> {
+    let non_ascii = mcsv::non_ascii_alphabet(enc);
+    let edge_list: Vec<&'static str> = if breaking {
+        vec!["", "", "", " ", "  ", "\t", "\n", "\r\n", " \n ", "\r"]
+    } else {
+        vec!["", "", "", " ", "  ", "\t", " \t"]
+    };
+    let mut exotic: Vec<String> = Vec::new();
+    for c in ['\u{3000}', '\u{a0}'] {
+        if non_ascii.contains(&c) {
+            exotic.push(c.to_string());
+        }
+    }
+    let breaking_atoms: Vec<&'static str> = if breaking { vec![",", ",", "\n", "\r\n", "\r", ",,"] } else { vec![";", ".", "|"] };
+    let atom = prop_oneof![
+        8 => "[A-Za-z0-9]{1,4}".prop_map(|s| s),
+        2 => prop::sample::select(vec![" ", ";", ".", "-", "=", "#", "\t", "|", "\\", "~"]).prop_map(|s| s.to_string()),
+        3 => prop::sample::select(vec!["\"", "'", "\"\"", "''", "\"'"]).prop_map(|s| s.to_string()),
+        3 => prop::sample::select(breaking_atoms).prop_map(|s| s.to_string()),
+        5 => prop::collection::vec(prop::sample::select(non_ascii), 1..4).prop_map(|v| v.into_iter().collect::<String>()),
+    ];
+    let edge = prop_oneof![
+        9 => prop::sample::select(edge_list).prop_map(|s| s.to_string()),
+        1 => if exotic.is_empty() { Just(" ".to_string()).boxed() } else { prop::sample::select(exotic).boxed() },
+    ];
+    let look = prop::sample::select(vec!["123", "TRUE", "false", "1e5", "-0", "#N/A", "=A1", "x"]).prop_map(|s| s.to_string());
+    prop_oneof![
+        12 => (edge.clone(), prop::collection::vec(atom, 1..5), edge).prop_map(|(a, mid, b)| format!("{}{}{}", a, mid.concat(), b)),
+        1 => look,
+    ]
+    .prop_map(|s| if s.is_empty() { "x".to_string() } else { s })
+    .boxed()
+}
+
+fn value(enc: &'static str, breaking: bool) -> BoxedStrategy<Val> {
+    let num = prop::sample::select(vec![
+        "0", "1", "-1", "12.5", "-3.25", "0.1", "0.30000000000000004", "1e21", "123456789.125", "1e-7", "100000", "2.5e-5", "99999999999",
+    ])
+    .prop_map(|s| Val::Num(s.to_string()));
+    prop_oneof![
+        10 => text_value(enc, breaking).prop_map(Val::Str),
+        2 => num,
+        1 => any::<bool>().prop_map(Val::Bool),
+    ]
+    .boxed()
+}
+
+fn sheet(enc: &'static str, breaking: bool) -> BoxedStrategy<Vec<CellSpec>> {
+    let col = prop_oneof![10 => 1u16..=8, 1 => 9u16..=30];
+    let row = prop_oneof![10 => 1u16..=10, 1 => 11u16..=60];
+    let cell = (col, row, value(enc, breaking)).prop_map(|(col, row, val)| CellSpec { col, row, val });
+    prop_oneof![
+        1 => Just(Vec::new()),
+        3 => prop::collection::vec(cell.clone(), 1..3),
+        10 => prop::collection::vec(cell, 2..12),
+    ]
+    .boxed()
+}
+
+fn csv_case(_t: Tier) -> BoxedStrategy<CsvCase> {
+    // wrap and encoding first: the text alphabet depends on both
+    (0u8..10, 0u8..3, prop::bool::weighted(0.12))
+        .prop_flat_map(|(enc, wrap, unrep)| {
+            let e = mcsv::ENCODINGS[enc as usize];
+            // line breaks / delimiters inside values: always with a wrap character, and in
+            // the small `unrepresentable` stratum without one
+            let breaking = wrap != 0 || unrep;
+            (
+                Just(enc),
+                Just(wrap),
+                prop::collection::vec(sheet(e, breaking), 1..4),
+                any::<u8>(),
+                any::<bool>(),
+                prop::bool::weighted(0.125),
+            )
+        })
+        .prop_map(|(enc, wrap, sheets, active, trim, via_path)| {
+            let n = sheets.len() as u8;
+            CsvCase { sheets, active: active % n.max(1), enc, trim, wrap, via_path }
+        })
+        .boxed()
+}
+
+// ---------------------------------------------------------------------------------------
+// oracle
+
+fn ascii_trim(s: &str) -> &str {
+    s.trim_matches(|c| matches!(c, ' ' | '\t' | '\r' | '\n' | '\u{b}' | '\u{c}'))
+}
+
+#[derive(Debug, Clone)]
+enum Expect {
+    Missing,
+    /// acceptable texts (one, or two when the two readings of "trimmed" differ) and the
+    /// cell's own text (for the feature class of a finding key)
+    Text(Vec<String>, String),
+    Number(f64),
+    Bool(bool),
+}
+
+impl Expect {
+    fn accepts(&self, field: &str) -> bool {
+        match self {
+            Expect::Missing => field.is_empty(),
+            Expect::Text(v, _) => v.iter().any(|t| t == field),
+            Expect::Number(x) => field.parse::<f64>().map_or(false, |y| y.to_bits() == x.to_bits()),
+            Expect::Bool(b) => field.eq_ignore_ascii_case(if *b { "TRUE" } else { "FALSE" }),
+        }
+    }
+    /// the cell's value text before trimming (feature classes)
+    fn original(&self) -> String {
+        match self {
+            Expect::Text(_, o) => o.clone(),
+            _ => self.primary(),
+        }
+    }
+    /// primary expected text (for messages)
+    fn primary(&self) -> String {
+        match self {
+            Expect::Missing => String::new(),
+            Expect::Text(v, _) => v[0].clone(),
+            Expect::Number(x) => x.to_string(),
+            Expect::Bool(b) => if *b { "TRUE" } else { "FALSE" }.to_string(),
+        }
+    }
+}
+
+fn is_breaking(s: &str) -> bool {
+    s.contains(|c| c == ',' || c == '\r' || c == '\n')
+}
+
+fn feature(s: &str, wrap: Option<char>, enc: &str) -> String {
+    if let Some(q) = wrap {
+        if s.contains(q) {
+            return "wrap-char-in-value".into();
+        }
+    }
+    if s.contains(|c| c == '\r' || c == '\n') {
+        return "line-break-in-value".into();
+    }
+    if s.contains(',') {
+        return "delimiter-in-value".into();
+    }
+    if s.contains(|c| c == '"' || c == '\'') {
+        return "quote-char-in-value".into();
+    }
+    if !s.is_ascii() {
+        return format!("non-ascii:{}", enc);
+    }
+    if s.starts_with(char::is_whitespace) || s.ends_with(char::is_whitespace) {
+        return "edge-blank".into();
+    }
+    "plain".into()
+}
+
+static FILE_COUNTER: AtomicU64 = AtomicU64::new(0);
+
+fn check_csv(c: &CsvCase, obs: &mut Obs) -> Verdict {
+    if c.sheets.is_empty() || c.enc as usize >= mcsv::ENCODINGS.len() || c.wrap > 2 {
+        return Verdict::Discard("malformed case".into());
+    }
+    let enc = mcsv::ENCODINGS[c.enc as usize];
+    let wrap = wrap_char(c.wrap);
+    let active = (c.active as usize).min(c.sheets.len() - 1);
+    // ---- reference grid of the active sheet, from the case alone
+    let mut grid: BTreeMap<(u32, u32), Expect> = BTreeMap::new();
+    let mut raw_texts: Vec<String> = Vec::new();
+    for cell in &c.sheets[active] {
+        if cell.col == 0 || cell.row == 0 {
+            return Verdict::Discard("cell position 0".into());
+        }
+        let e = match &cell.val {
+            Val::Str(s) => {
+                if s.is_empty() {
+                    return Verdict::Discard("empty text cell".into());
+                }
+                if c.trim {
+                    let a = s.trim().to_string();
+                    let b = ascii_trim(s).to_string();
+                    if a == b {
+                        Expect::Text(vec![a], s.clone())
+                    } else {
+                        Expect::Text(vec![a, b], s.clone())
+                    }
+                } else {
+                    Expect::Text(vec![s.clone()], s.clone())
+                }
+            }
+            Val::Num(t) => match t.parse::<f64>() {
+                Ok(x) if x.is_finite() => Expect::Number(x),
+                _ => return Verdict::Discard("number text is not a finite number".into()),
+            },
+            Val::Bool(b) => Expect::Bool(*b),
+        };
+        grid.insert((cell.row as u32, cell.col as u32), e);
+    }
+    let max_row = grid.keys().map(|k| k.0).max().unwrap_or(0);
+    let max_col = grid.keys().map(|k| k.1).max().unwrap_or(0);
+    for e in grid.values() {
+        raw_texts.push(e.original());
+    }
+    let has_gap = (grid.len() as u64) < max_row as u64 * max_col as u64;
+    let special = raw_texts.iter().any(|s| feature(s, wrap, enc) != "plain");
+    // with no quote character, fields containing the delimiter or a line break are not representable
+    let unrepresentable = wrap.is_none()
+        && grid.values().any(|e| match e {
+            Expect::Text(v, _) => v.iter().any(|t| is_breaking(t)),
+            _ => false,
+        });
+    obs.nontrivial(has_gap && special && !unrepresentable);
+    obs.class(format!("enc/{}", enc));
+    obs.class(format!("wrap/{}", match c.wrap { 0 => "none", 1 => "dquote", _ => "squote" }));
+    obs.class(if c.trim { "trim/on" } else { "trim/off" });
+    obs.class(if unrepresentable { "stratum/unrepresentable(no quote char, value with delimiter or line break)" } else { "stratum/grid" });
+    obs.class(if c.via_path { "route/write-path" } else { "route/write_writer" });
+    if grid.is_empty() {
+        obs.class("sheet/empty");
+    }
+    if has_gap {
+        obs.class("grid/gap");
+    }
+    obs.class(format!("sheets/{}-active-{}", c.sheets.len(), active));
+    let mut feats: Vec<String> = raw_texts.iter().map(|s| feature(s, wrap, enc)).map(|f| if f.starts_with("non-ascii") { "non-ascii".to_string() } else { f }).collect();
+    feats.sort();
+    feats.dedup();
+    for f in &feats {
+        obs.class(format!("value/{}", f));
+    }
+
+    // ---- the library
+    let r = guard(|| {
+        let mut book = umya_spreadsheet::new_file_empty_worksheet();
+        for (i, cells) in c.sheets.iter().enumerate() {
+            let sheet = book.new_sheet(format!("S{}", i + 1)).unwrap();
+            for cell in cells {
+                let target = sheet.get_cell_mut((cell.col as u32, cell.row as u32));
+                match &cell.val {
+                    Val::Str(s) => {
+                        target.set_value_string(s.clone());
+                    }
+                    Val::Num(t) => {
+                        target.set_value_number(t.parse::<f64>().unwrap());
+                    }
+                    Val::Bool(b) => {
+                        target.set_value_bool(*b);
+                    }
+                }
+            }
+        }
+        book.set_active_sheet(active as u32);
+        let mut option = CsvWriterOption::default();
+        option.set_csv_encode_value(enc.parse::<CsvEncodeValues>().unwrap());
+        option.set_do_trim(c.trim);
+        if let Some(q) = wrap {
+            option.set_wrap_with_char(q.to_string());
+        }
+        if c.via_path {
+            let dir = std::env::temp_dir().join(format!("verif-c20-{}", std::process::id()));
+            let _ = std::fs::create_dir_all(&dir);
+            let path = dir.join(format!("case-{}.csv", FILE_COUNTER.fetch_add(1, Ordering::Relaxed)));
+            let res = umya_spreadsheet::writer::csv::write(&book, &path, Some(&option));
+            let bytes = std::fs::read(&path);
+            let _ = std::fs::remove_file(&path);
+            match (res, bytes) {
+                (Ok(()), Ok(b)) => Ok(b),
+                (Err(e), _) => Err(format!("write() returned an error: {:?}", e)),
+                (_, Err(e)) => Err(format!("written file cannot be read: {}", e)),
+            }
+        } else {
+            let mut cur = std::io::Cursor::new(Vec::new());
+            match umya_spreadsheet::writer::csv::write_writer(&book, &mut cur, &option) {
+                Ok(()) => Ok(cur.into_inner()),
+                Err(e) => Err(format!("write_writer returned an error: {:?}", e)),
+            }
+        }
+    });
+    let case_feature = feats.iter().find(|f| f.as_str() != "plain").cloned().unwrap_or_else(|| "plain".into());
+    let bytes = match r {
+        Err(p) => return Verdict::fail(format!("{}/panic:{}", case_feature, p.site()), p.short()),
+        Ok(Err(e)) => return Verdict::fail(format!("{}/write-error", case_feature), e),
+        Ok(Ok(b)) => b,
+    };
+
+    // ---- decode in the selected encoding
+    let grid_matches = |text: &str| -> Result<(), (String, String)> { compare_grid(text, wrap, enc, &grid, max_row, max_col) };
+    let decoded = mcsv::decode(enc, &bytes);
+    // weak oracle of the `unrepresentable` stratum: the value texts appear in order
+    // (delimiters, line breaks and blanks aside)
+    let squash = |s: &str| -> String { s.chars().filter(|ch| *ch != ',' && !ch.is_whitespace()).collect() };
+    let mut want = String::new();
+    for r in 1..=max_row {
+        for col in 1..=max_col {
+            if let Some(e) = grid.get(&(r, col)) {
+                want.push_str(&squash(&e.primary()));
+            }
+        }
+    }
+    // diagnosis for "the bytes are UTF-8 although another encoding was selected": as UTF-8
+    // the output satisfies the very oracle it fails in the selected encoding
+    let utf8_instead = || -> bool {
+        if enc == "utf_8" {
+            return false;
+        }
+        match String::from_utf8(bytes.clone()) {
+            Ok(t) => Some(&t) != decoded.as_ref() && if unrepresentable { squash(&t) == want } else { grid_matches(&t).is_ok() },
+            Err(_) => false,
+        }
+    };
+    let Some(text) = decoded.clone() else {
+        let mode = if utf8_instead() { "emits-utf-8" } else { "undecodable" };
+        return Verdict::fail(
+            format!("{}/{}", enc, mode),
+            format!("{} bytes are not valid {}: {:?}", bytes.len(), enc, truncate(&String::from_utf8_lossy(&bytes), 200)),
+        );
+    };
+    let text = text.strip_prefix('\u{feff}').map(|s| s.to_string()).unwrap_or(text);
+
+    if unrepresentable {
+        if squash(&text) != want {
+            if utf8_instead() {
+                return Verdict::fail(format!("{}/emits-utf-8", enc), "the output is UTF-8".to_string());
+            }
+            return Verdict::fail(
+                "unrepresentable/content-lost",
+                format!("value texts in order {:?}, output {:?}", truncate(&want, 300), truncate(&text, 300)),
+            );
+        }
+        return Verdict::Pass;
+    }
+
+    match grid_matches(&text) {
+        Ok(()) => Verdict::Pass,
+        Err((key, detail)) => {
+            if utf8_instead() {
+                return Verdict::fail(format!("{}/emits-utf-8", enc), format!("the output is UTF-8 text, not {}", enc));
+            }
+            Verdict::fail(key, format!("enc={} trim={} wrap={:?}: {}", enc, c.trim, wrap, detail))
+        }
+    }
+}
+
+fn compare_grid(
+    text: &str,
+    wrap: Option<char>,
+    enc: &str,
+    grid: &BTreeMap<(u32, u32), Expect>,
+    max_row: u32,
+    max_col: u32,
+) -> Result<(), (String, String)> {
+    let parsed = mcsv::parse(text, ',', wrap);
+    let sheet_feature = || -> String {
+        let mut best = "plain".to_string();
+        for e in grid.values() {
+            let f = feature(&e.original(), wrap, enc);
+            if f != "plain" {
+                // most specific first
+                let rank = |f: &str| match f {
+                    "wrap-char-in-value" => 0,
+                    "line-break-in-value" => 1,
+                    "delimiter-in-value" => 2,
+                    "quote-char-in-value" => 3,
+                    "edge-blank" => 5,
+                    "plain" => 6,
+                    _ => 4,
+                };
+                if rank(&f) < rank(&best) {
+                    best = f;
+                }
+            }
+        }
+        best
+    };
+    if parsed.records.len() != max_row as usize {
+        return Err((
+            format!("{}/record-count", sheet_feature()),
+            format!("{} records, highest used row is {} (anomalies {:?}); output {:?}", parsed.records.len(), max_row, parsed.anomalies, truncate(text, 300)),
+        ));
+    }
+    for (ri, rec) in parsed.records.iter().enumerate() {
+        let row = ri as u32 + 1;
+        if rec.len() != max_col as usize {
+            let row_feature = (1..=max_col)
+                .filter_map(|cidx| grid.get(&(row, cidx)))
+                .map(|e| feature(&e.original(), wrap, enc))
+                .find(|f| f != "plain")
+                .unwrap_or_else(sheet_feature);
+            return Err((
+                format!("{}/field-count", row_feature),
+                format!("record {} has {} fields, highest used column is {} (anomalies {:?}); output {:?}", row, rec.len(), max_col, parsed.anomalies, truncate(text, 300)),
+            ));
+        }
+        for (ci, field) in rec.iter().enumerate() {
+            let col = ci as u32 + 1;
+            let e = grid.get(&(row, col)).cloned().unwrap_or(Expect::Missing);
+            if !e.accepts(field) {
+                let (feat, mode) = match &e {
+                    Expect::Missing => (sheet_feature(), "missing-cell-not-empty"),
+                    Expect::Number(_) => ("number".to_string(), "field-text"),
+                    Expect::Bool(_) => ("boolean".to_string(), "field-text"),
+                    Expect::Text(..) => (feature(&e.original(), wrap, enc), "field-text"),
+                };
+                return Err((
+                    format!("{}/{}", feat, mode),
+                    format!("row {} column {}: field {:?}, expected {:?}; output {:?}", row, col, field, e, truncate(text, 300)),
+                ));
+            }
+        }
+    }
+    Ok(())
+}
+
+fn subs() -> Vec<Box<dyn DynSub>> {
+    vec![Box::new(Sub {
+        name: "grid",
+        strategy: csv_case,
+        cases: (30000, 600_000),
+        check: check_csv,
+        max_shrink_iters: 1500,
+    })]
+}
+
+// ---------------------------------------------------------------------------------------
+// enumerated option combinations + oracle self-tests
+
+fn harness_error(msg: &str) -> ! {
+    eprintln!("HARNESS-ERROR: {}", msg);
+    println!("INCONCLUSIVE property=C20 {}", msg);
+    std::process::exit(2);
+}
+
+fn extra(ctx: &Ctx) {
+    // the reference parser on hand-computed cases (cheap, every run)
+    let v = |x: &[&[&str]]| -> Vec<Vec<String>> { x.iter().map(|r| r.iter().map(|s| s.to_string()).collect()).collect() };
+    let checks: Vec<(&str, Option<char>, Vec<Vec<String>>)> = vec![
+        ("a,b\r\nc,d\r\n", Some('"'), v(&[&["a", "b"], &["c", "d"]])),
+        ("\"a,b\",\"c\"\"d\"\r\n", Some('"'), v(&[&["a,b", "c\"d"]])),
+        ("\"a\r\nb\",c\r\n", Some('"'), v(&[&["a\r\nb", "c"]])),
+        ("\r\n", Some('"'), v(&[&[""]])),
+        ("a\"b,'c'\r\n", None, v(&[&["a\"b", "'c'"]])),
+        ("'a''b','',\r\n", Some('\''), v(&[&["a'b", "", ""]])),
+        (",\r\n,\r\n", None, v(&[&["", ""], &["", ""]])),
+    ];
+    for (text, q, want) in checks {
+        let got = mcsv::parse(text, ',', q).records;
+        if got != want {
+            harness_error(&format!("reference parser reads {:?} as {:?}, expected {:?}", text, got, want));
+        }
+    }
+    if ctx.tier == Tier::Thorough {
+        match crate::model::selftest_numcsv::run_python_selftest(&["csv", "enc"]) {
+            Ok(msg) => ctx.set_extra("oracle_selftest", json!(msg)),
+            Err(e) => harness_error(&format!("oracle self-test against Python csv/codecs failed: {}", e)),
+        }
+    }
+    let mut n = 0u64;
+    for enc in 0..10u8 {
+        let e = mcsv::ENCODINGS[enc as usize];
+        let alphabet: String = mcsv::non_ascii_alphabet(e).into_iter().collect();
+        for trim in [false, true] {
+            for wrap in 0..3u8 {
+                for breaking in [false, true] {
+                    if wrap != 0 && !breaking {
+                        continue;
+                    }
+                    let comma = if breaking { "a,b" } else { "a;b" };
+                    let lines = if breaking { "l1\r\nl2\nl3\rl4" } else { "l1 l2" };
+                    let cell = |col: u16, row: u16, s: &str| CellSpec { col, row, val: Val::Str(s.to_string()) };
+                    let active = vec![
+                        cell(2, 1, comma),
+                        cell(4, 1, "q\"q'q"),
+                        cell(1, 2, lines),
+                        cell(3, 2, "  both  "),
+                        cell(5, 2, "\""),
+                        cell(2, 4, &alphabet),
+                        cell(6, 4, "''"),
+                        CellSpec { col: 1, row: 5, val: Val::Num("-12.5".into()) },
+                        CellSpec { col: 3, row: 5, val: Val::Bool(true) },
+                        cell(6, 5, if breaking { ",\"," } else { "\";\"" }),
+                    ];
+                    let other = vec![cell(1, 1, "other sheet"), cell(9, 9, "x")];
+                    for (sheets, act) in [(vec![active.clone(), other.clone()], 0u8), (vec![other.clone(), active.clone()], 1u8)] {
+                        let case = CsvCase { sheets, active: act, enc, trim, wrap, via_path: false };
+                        let mut obs = Obs::default();
+                        let v = check_csv(&case, &mut obs);
+                        let fp = fnv(format!("enum|{}|{}|{}|{}|{}", enc, trim, wrap, breaking, act).as_bytes());
+                        ctx.count_case(fp, obs.nontrivial);
+                        n += 1;
+                        if n == 1 {
+                            ctx.add_sample(json!({"sub": "grid", "case": serde_json::to_value(&case).unwrap()}));
+                        }
+                        ctx.judge("grid", &case, v);
+                    }
+                }
+            }
+        }
+    }
+    ctx.add_class("enumerated/option-combinations", n);
 }
